@@ -74,7 +74,8 @@ PROPS = {
     "C07": {
         "level": "fault_enumeration",
         "units": [
-            U("c07", "TestCrashPoints", T(1, 16, 400, shrinktime="90s"), T(12, 16, 3000, shrinktime="300s"), needs=["nodeexec"]),
+            U("c07", "TestCrashPoints", T(1, 12, 400, shrinktime="90s"), T(12, 16, 3000, shrinktime="300s"), needs=["nodeexec"]),
+            U("c07", "TestKillAnytime", T(4, 6, 400, shrinktime="60s"), T(60, 16, 3000, shrinktime="200s"), needs=["nodeexec"]),
         ],
     },
     "C08": {
